@@ -52,7 +52,7 @@ func init() {
 		ID:          "C04",
 		Title:       "Foreign keys: targets exist, back-references exact, delete restricts or cascades",
 		Technique:   "static analysis: taint rule (no run-time text flows into a filter parser from inside the library), wiring rule for the Add*Fk* registrations, existence-check dominance, old-back-reference-removed-on-every-changed-path rule, shape rule for the restrict/cascade delete loop (delete inside the live cursor loop with re-seek); raw-id rule for the cascade filter constant",
-		LevelText:   "Necessary conditions decided on every path: no filter text is assembled from data inside the library (ids with quotes, backslashes or keywords cannot change a query's meaning); every fk registration also registers the delete-side constraint on the target store; a back-reference is written only into an existing target (not-found otherwise) and fk constraints test the target's presence; on update the old back-reference is removed on every path where the reference changed; restrict refuses while a referrer exists; cascade deletes referrers from the live cursor (re-seeking after each delete), returning on the first error. Exact back-reference sets after histories are not decided. The constant of the cascade/restrict filter is the id parameter itself (nothing unquotes or unescapes it); every loop that deletes referrers re-seeks its cursor. Added later: the indexing context shares the operation's error holder (HOLDER); a loop that deletes through the store while a cursor over the same data is live re-seeks before it continues (RESEEK). Added in rounds 8-9: a refusal raised for a child store reaches the caller (LOOKEDAT); the referenced store is asked only about non-empty reference values (EMPTYREF); every constraint handed in is registered (CONSTRAINTREG); the referrer filter of the cascade is made per invocation (FRESHFILTER); the nested delete of the cascade is guarded against re-entering an entity already being deleted (CASCADECYCLE: KNOWN FINDING on the pinned tree, see known_findings.json).",
+		LevelText:   "Necessary conditions decided on every path: no filter text is assembled from data inside the library (ids with quotes, backslashes or keywords cannot change a query's meaning); every fk registration also registers the delete-side constraint on the target store; a back-reference is written only into an existing target (not-found otherwise) and fk constraints test the target's presence; on update the old back-reference is removed on every path where the reference changed; restrict refuses while a referrer exists; cascade deletes referrers from the live cursor (re-seeking after each delete), returning on the first error. Exact back-reference sets after histories are not decided. The constant of the cascade/restrict filter is the id parameter itself (nothing unquotes or unescapes it); every loop that deletes referrers re-seeks its cursor. Added later: the indexing context shares the operation's error holder (HOLDER); a loop that deletes through the store while a cursor over the same data is live re-seeks before it continues (RESEEK). Added in rounds 8-9: a refusal raised for a child store reaches the caller (LOOKEDAT); the referenced store is asked only about non-empty reference values (EMPTYREF); every constraint handed in is registered (CONSTRAINTREG); the referrer filter of the cascade is made per invocation (FRESHFILTER); the nested delete of the cascade is guarded against re-entering an entity already being deleted (CASCADECYCLE: KNOWN FINDING on the pinned tree, see known_findings.json). Added in round 10: a reference read through a symbol is not looked up in that symbol's own store (REFSTORE); a forward Seek does not move the bolt cursor again, cursor families with the direction in a flag field are decided under the constructor's constant (CURSORSEEK); the parent chain runs as the kind of operation the entry point says (CREATECTX).",
 		LevelNote:   "Trusted: go/types, x/tools SSA, bbolt; evaluation of the AST filter used by the cascade is C01's domain.",
 		DesignRef:   "DESIGN.md C04",
 		Explanation: "Sites: every call of ast.Parse/QueryIds/DeleteWhere/zitiql.Parse made from library code; Indexer.Add*Fk*; fkIndex/fkConstraint/fkDeleteConstraint/fkDeleteCascadeConstraint Process* methods.",
@@ -146,7 +146,7 @@ func init() {
 		ID:          "C06",
 		Title:       "A committed delete leaves no trace of the entity's id",
 		Technique:   "static analysis: must-pass orchestration of the delete path (parent delegation, child fan-out, constraints, link cleanup, entity bucket removal), writer⊆remover pairing per constraint type, stale-back-reference rule on updates, unconditional remote link removal, no-mutation-of-the-iterated-bucket rule",
-		LevelText:   "Decides that every place the id can have been written has a remover on the delete path and that the path is complete on every non-failing route: child stores delegate to the parent; the parent runs, for every child strategy, the child's delete constraints, then its own, then removes the entity bucket (child data lives below it); every index-writing constraint type has a delete-side remover; updates remove the old back-reference on every changed path (otherwise a later delete cannot find it); entity deletion removes the remote side of every link without deleting under the live cursor. That removers delete exactly the keys writers wrote on every history is not decided (the repository's ValidateDeleted oracle does that at run time). Added later: child strategies are appended, never replaced (CHILDREG); the error result of the delete-constraint step is looked at on every path before the entity bucket is removed (LOOKEDAT); no bbolt Stats() answer decides a cleanup (NOSTATS). Added in rounds 8-9: cross-listed RAWID, FRESHFILTER and WIRING (the delete rule of a foreign key lands on the referenced store and finds the referrers of exactly the id being deleted, also in nested deletes).",
+		LevelText:   "Decides that every place the id can have been written has a remover on the delete path and that the path is complete on every non-failing route: child stores delegate to the parent; the parent runs, for every child strategy, the child's delete constraints, then its own, then removes the entity bucket (child data lives below it); every index-writing constraint type has a delete-side remover; updates remove the old back-reference on every changed path (otherwise a later delete cannot find it); entity deletion removes the remote side of every link without deleting under the live cursor. That removers delete exactly the keys writers wrote on every history is not decided (the repository's ValidateDeleted oracle does that at run time). Added later: child strategies are appended, never replaced (CHILDREG); the error result of the delete-constraint step is looked at on every path before the entity bucket is removed (LOOKEDAT); no bbolt Stats() answer decides a cleanup (NOSTATS). Added in rounds 8-9: cross-listed RAWID, FRESHFILTER and WIRING (the delete rule of a foreign key lands on the referenced store and finds the referrers of exactly the id being deleted, also in nested deletes). Added in round 10: a forward Seek lands on the first remaining key (CURSORSEEK); the cascade loop is left only on an exhausted cursor or a recorded/returned failure (CASCADE).",
 		LevelNote:   "Trusted: go/types, x/tools SSA, bbolt (DeleteBucket removes nested buckets).",
 		DesignRef:   "DESIGN.md C06",
 		Explanation: "Sites: BaseStore.DeleteById/processDeleteConstraints/cleanupLinks, NewBaseStore path construction, all Constraint implementers, link collections' EntityDeleted.",
